@@ -264,6 +264,73 @@ func runC16(c *an.Ctx) {
 			}
 		}
 		c.Check(okClose, "R4", "regex key: only an unescaped slash closes it", pv.Pos(), "'/' && !isEscaped", "the closing-slash test does not consult the escape state")
+		// per-target flags: the count ('&') and negation ('!') flags belong to one target; once a target has been
+		// added, both enter the next iteration as false (otherwise "&A|B" also counts B)
+		var addCalls []*ssa.Call
+		an.Instrs(pv, func(in ssa.Instruction) {
+			if call, ok := in.(*ssa.Call); ok && call.Call.StaticCallee() != nil {
+				if n := call.Call.StaticCallee().Name(); n == "AddVariable" || n == "AddVariableNegation" {
+					addCalls = append(addCalls, call)
+				}
+			}
+		})
+		if len(addCalls) < 2 {
+			c.Unknown("R4", "ParseVariables: targets are added", pv.Pos(), "calls of AddVariable / AddVariableNegation not found")
+		} else {
+			// nearest common dominator of the calls
+			done := addCalls[0].Block()
+			for _, ac := range addCalls[1:] {
+				for !done.Dominates(ac.Block()) {
+					done = done.Idom()
+				}
+			}
+			flags := map[string]*ssa.Phi{}
+			for _, ac := range addCalls {
+				if ac.Call.StaticCallee().Name() == "AddVariable" && len(ac.Call.Args) == 4 {
+					if p, ok := ac.Call.Args[3].(*ssa.Phi); ok {
+						flags["count ('&')"] = p
+					}
+				}
+			}
+			if ifi, ok := done.Instrs[len(done.Instrs)-1].(*ssa.If); ok {
+				if p, ok := ifi.Cond.(*ssa.Phi); ok {
+					flags["negation ('!')"] = p
+				}
+			}
+			if len(flags) < 2 {
+				c.Unknown("R4", "ParseVariables: per-target flags", pv.Pos(), "the loop-carried count/negation flags were not identified")
+			}
+			for name, phi := range flags {
+				bad := ""
+				var leaves func(p *ssa.Phi, d int)
+				seenP := map[*ssa.Phi]bool{}
+				leaves = func(p *ssa.Phi, d int) {
+					if seenP[p] || d > 6 {
+						return
+					}
+					seenP[p] = true
+					for i, e := range p.Edges {
+						pb := p.Block().Preds[i]
+						if q, ok := e.(*ssa.Phi); ok && q != phi {
+							leaves(q, d+1)
+							continue
+						}
+						if pb == done || !done.Dominates(pb) {
+							continue // not a "target finished" edge
+						}
+						if cst, ok := e.(*ssa.Const); !ok || cst.Value == nil || cst.Value.String() != "false" {
+							bad = tempName.ReplaceAllString(an.Expr(e), "")
+							if e == ssa.Value(phi) {
+								bad = "its previous value"
+							}
+						}
+					}
+				}
+				leaves(phi, 0)
+				c.Check(bad == "", "R4", "ParseVariables: the "+name+" flag is cleared after each target", phi.Pos(), "false on every edge from the code that adds a target",
+					"after a target has been added the "+name+" flag enters the next iteration as "+bad+": the flag leaks onto the following targets of the list (e.g. &A|B evaluates B as a count as well)")
+			}
+		}
 	}
 	if ps := c.Fn("R4", "internal/seclang.(*Parser).parseString"); ps != nil {
 		ev := c.P.Func("internal/seclang.(*Parser).evaluateLine")
